@@ -507,6 +507,7 @@ def l1(ctx: Ctx):
                 file=s["file"],
                 line=s["line"],
                 props=["C14", "C04"] if name != "ecb_joystk" else ["C14", "C04"],
+                signature=f"{n_given} arguments for {len(params)} parameters",
             )
             continue
         bad = []
